@@ -13,6 +13,7 @@ import (
 	"hash/fnv"
 	"os"
 	"reflect"
+	"regexp"
 	"sort"
 	"strconv"
 	"strings"
@@ -54,11 +55,37 @@ func closeTrace() {
 	}
 }
 
+// numbers that TLC's 32-bit integers cannot hold (a Size() of -9223372036854775806 on a changed tree, say) are clamped to
+// +-2^30 in the log: they stay absurd, and the trace stays readable.  Numbers inside strings are left alone.
+var hugeNumber = regexp.MustCompile(`([\[,:])(-?[0-9]{10,})([\],}])`)
+
+func clampJSON(b []byte) []byte {
+	if !hugeNumber.Match(b) {
+		return b
+	}
+	// (applied twice: adjacent numbers share their separator)
+	for pass := 0; pass < 2; pass++ {
+		b = hugeNumber.ReplaceAllFunc(b, func(m []byte) []byte {
+			sub := hugeNumber.FindSubmatch(m)
+			lim := []byte(strconv.Itoa(clampLim))
+			if sub[2][0] == '-' {
+				lim = []byte(strconv.Itoa(-clampLim))
+			}
+			if n, err := strconv.ParseInt(string(sub[2]), 10, 64); err == nil && n >= -clampLim && n <= clampLim {
+				return m
+			}
+			return append(append(append([]byte{}, sub[1]...), lim...), sub[3]...)
+		})
+	}
+	return b
+}
+
 func emit(e Ev) {
 	b, err := json.Marshal(e)
 	if err != nil {
 		die("marshal: %v", err)
 	}
+	b = clampJSON(b)
 	traceW.Write(b)
 	traceW.WriteByte('\n')
 	nEvents++
@@ -208,6 +235,14 @@ func startWatchdog() {
 				// the running call did not return: record it and stop the process
 				if cur, ok := wdCurrent.Load().(Ev); ok && cur != nil {
 					cur["timeout"] = true
+					// the description of a call made while observing or building has only a few fields: complete it, so
+					// that the line is an event like any other (one that did not complete)
+					for k, v := range map[string]any{"fam": "", "kind": "", "cfg": Ev{}, "op": "", "a": Call{}.A(), "rs": 1, "pre": 0, "post": 0,
+						"r": []any{}, "panic": false, "pmsg": "", "out": 0, "cmps": 0, "mut": false, "obsbad": true, "fp": []string{"", "", ""}} {
+						if _, has := cur[k]; !has {
+							cur[k] = v
+						}
+					}
 					b, _ := json.Marshal(cur)
 					// the main goroutine is stuck inside the library, so the writer is ours
 					traceW.Write(b)
@@ -489,6 +524,10 @@ func (z *serializer) walk(v reflect.Value, depth int) {
 			z.buf = strconv.AppendInt(z.buf, int64(v.Cap()), 10)
 		}
 		z.w(":")
+		if v.Type().Elem().Size() == 0 { // zero-size elements carry no information (and there may be MaxInt of them)
+			z.w("zs]")
+			return
+		}
 		full := v
 		if z.spare {
 			full = v.Slice(0, v.Cap())
